@@ -394,6 +394,12 @@ def run_atx(seed, res):
 def run_shard(desc, tier, seed):
     res = Result()
     simlib.import_all()
+    _drv = desc.get("driver")
+    if _drv in simlib.DRIVERS and "replay" not in desc:
+        why = simlib.probe_attach(_drv)
+        if why:
+            res.inconclusive.append(why)
+            return res
     if "replay" in desc:
         for w in desc["replay"]["witnesses"]:
             x = w["witness"]
